@@ -162,6 +162,12 @@ inline bool record(const std::string &prop, const std::string &body, const std::
     if (!s.dir.empty()) write_file(s.dir + "/current.case", text);
     Verdict v = guarded(eval);
     if (v.aborted && abort_is_failure) { v.ok = false; v.sig = "library-assert"; }
+    if (v.aborted && !abort_is_failure && !s.failed_once) {
+        // not judged here (DESIGN 2.6); kept for C15, which owns library assertions
+        std::string m = v.msg; for (char &ch : m) if (ch == '\n') ch = ' ';
+        fprintf(stderr, "ABORTED: %s\n", m.c_str());
+        if (s.aborted < 5 && !s.dir.empty()) write_file(s.dir + "/aborted-" + std::to_string(s.aborted) + ".case", text);
+    }
     bool known = !v.ok && !v.sig.empty() && s.known_sigs.count(v.sig);
     if (!s.failed_once) {
         s.evaluations++;
